@@ -169,7 +169,45 @@ def abtest(ctx) -> None:
     ctx.check('self._total: int = 0' in text or 'self._total = 0' in text, 'C17.abtest', init, 'the request counter starts at zero', init.node, key='init:total')
 
 
+SLOT_MEMO_OK = {
+    (f'{STRATEGY}:Explicit.select', '_instance', 'registry'): 'the explicit strategy pins *the* configured instance: the same object on every request by contract',
+}
+
+
+def slot_memos(ctx) -> None:
+    """A result memoised in an instance slot (``if not self._x: self._x = f(p)`` ... ``return self._x``) ignores the parameter
+    ``p`` on every later call: a selector serving several registries would hand the first registry's instance to all of them.
+    Memoisation keyed by the arguments (lru_cache over (self, registry)) is the accepted form."""
+    prog = ctx.prog
+    n = 0
+    for fn in prog.functions([STRATEGY]):
+        params = set(fn.param_names) - {'self', 'cls'}
+        if not params:
+            continue
+        for st in core.walk_local(fn.node):
+            if not isinstance(st, ast.If):
+                continue
+            tested = {x.attr for x in ast.walk(st.test) if isinstance(x, ast.Attribute) and core.src(x.value) == 'self'}
+            for a in st.body:
+                if isinstance(a, (ast.Assign, ast.AnnAssign)):
+                    tgt = a.targets[0] if isinstance(a, ast.Assign) else a.target
+                    if isinstance(tgt, ast.Attribute) and core.src(tgt.value) == 'self' and tgt.attr in tested and a.value is not None:
+                        used = sorted(params & core.names_in(a.value))
+                        for p_ in used:
+                            n += 1
+                            key = (fn.ref, tgt.attr, p_)
+                            if key in SLOT_MEMO_OK:
+                                ctx.ok('C17.memo', fn, f'self.{tgt.attr} memoises a value computed from `{p_}`: {SLOT_MEMO_OK[key]}', a)
+                            else:
+                                ctx.fail('C17.memo', fn, f'self.{tgt.attr} memoises a value computed from the parameter `{p_}` without keying by it: later calls with another {p_} get the first one\'s result', a, key=f'memo:{tgt.attr}:{p_}')
+    ctx.floor('C17.memo', n, 1)
+    inst = prog.func(f'{STRATEGY}:ABTest.Slot._instance')
+    decos = [d.split('.')[-1] for d in core.decorator_names(inst.node)]
+    ctx.check(any(d in ('lru_cache', 'cache') for d in decos) or not any(isinstance(x, ast.Attribute) and isinstance(x.ctx, ast.Store) for x in core.walk_local(inst.node)), 'C17.memo', inst, 'the slot instance is memoised per (slot, registry) - or not at all', inst.node, key='slot:instance-memo')
+
+
 def run(ctx) -> None:
+    slot_memos(ctx)
     explicit(ctx)
     latest(ctx)
     abtest(ctx)
